@@ -81,6 +81,10 @@ namespace nmtools::index
                 auto r_shape_i = float(at(shape,spatial_i) + pad - ((at(kernel_size,spatial_i) - 1) * dilations + 1)) / at(stride,spatial_i) + 1;
                 if (static_cast<bool>(ceil_mode)) {
                     at(res,spatial_i) = math::constexpr_ceil(r_shape_i);
+                    // the last window must start inside the input (as in torch), otherwise it is empty
+                    if ((at(res,spatial_i) - 1) * at(stride,spatial_i) >= at(shape,spatial_i) + pad) {
+                        at(res,spatial_i) = at(res,spatial_i) - 1;
+                    }
                 } else {
                     at(res,spatial_i) = math::constexpr_floor(r_shape_i);
                 }
